@@ -415,6 +415,14 @@ def value_eq(ex, a, b):
         return a == b
     if isinstance(a, Bytes) and isinstance(b, Bytes):
         return bytes_eq(a, b)
+    if isinstance(a, EnumV) and isinstance(b, EnumV) and ex.type_base(a.ty or b.ty or "") in ("Option", "") and (a.variant in (None, "Some", "None")) and (b.variant in (None, "Some", "None")) \
+            and ((a.ty or "").startswith(("Option", "std::option", "core::option")) or (b.ty or "").startswith(("Option", "std::option", "core::option")) or a.variant in ("Some", "None") or b.variant in ("Some", "None")):
+        sa = z3.BoolVal(a.variant == "Some") if a.variant is not None else (a.discr.bv != 0)
+        sb = z3.BoolVal(b.variant == "Some") if b.variant is not None else (b.discr.bv != 0)
+        if a.variant == "None" or b.variant == "None":
+            return z3.And(z3.Not(sa), z3.Not(sb))
+        pa, pb = payload(ex, a, "Some"), payload(ex, b, "Some")
+        return z3.And(sa == sb, z3.Implies(sa, value_eq(ex, pa, pb)))
     if isinstance(a, EnumV) and isinstance(b, EnumV):
         da, db = ex.discr_of(a), ex.discr_of(b)
         da = da if isinstance(da, I) else I(bv(da, 64), True)
